@@ -27,15 +27,18 @@ struct PlantedSpec
    int degenerate = 0; // 1: many tight constraints with zero multipliers
    int maximize = 0;
    int seed = 0;
+   int magnitude = 0;  // 1: rows and columns are rescaled by powers of two 2^-8..2^8 (equivalent LP, same optimum; gives the scalers real work)
    std::string str() const
    {
-      char b[96];
-      snprintf(b, sizeof b, "P:%d:%d:%d:%d:%d:%d:%d", kind, n, m, density, degenerate, maximize, seed);
+      char b[112];
+      if(magnitude) snprintf(b, sizeof b, "P:%d:%d:%d:%d:%d:%d:%d:%d", kind, n, m, density, degenerate, maximize, seed, magnitude);
+      else snprintf(b, sizeof b, "P:%d:%d:%d:%d:%d:%d:%d", kind, n, m, density, degenerate, maximize, seed);
       return b;
    }
    static bool parse(const std::string& s, PlantedSpec& p)
    {
-      return sscanf(s.c_str(), "P:%d:%d:%d:%d:%d:%d:%d", &p.kind, &p.n, &p.m, &p.density, &p.degenerate, &p.maximize, &p.seed) == 7;
+      p.magnitude = 0;
+      return sscanf(s.c_str(), "P:%d:%d:%d:%d:%d:%d:%d:%d", &p.kind, &p.n, &p.m, &p.density, &p.degenerate, &p.maximize, &p.seed, &p.magnitude) >= 7;
    }
    const char* kindName() const { return kind == 0 ? "OPT" : kind == 1 ? "INF" : "UNB"; }
 };
@@ -212,6 +215,28 @@ inline PlantedLP planted(const PlantedSpec& sp)
       for(int j = 0; j < n; ++j) v += q_of_double(lp.c[j]) * q_of_double(x0[j]);
       cl.opt = v;
    }
+   if(sp.magnitude)
+   {
+      // equivalent LP: row i multiplied by 2^e_i (sides included), column j substituted x_j = 2^f_j x'_j (coefficients and cost times 2^f_j,
+      // bounds and x0 divided by it); all numbers stay exactly representable, feasible set / verdict / optimal value are unchanged
+      Lcg g2((uint64_t)sp.seed * 31337ULL + sp.n * 7 + sp.m);
+      for(int i = 0; i < m; ++i)
+      {
+         double r = ldexp(1.0, g2.range(-8, 8));
+         for(int j = 0; j < n; ++j) lp.A[i][j] *= r;
+         if(lp.lhs[i] > -INF) lp.lhs[i] *= r;
+         if(lp.rhs[i] < INF) lp.rhs[i] *= r;
+      }
+      for(int j = 0; j < n; ++j)
+      {
+         double f = ldexp(1.0, g2.range(-8, 8));
+         for(int i = 0; i < m; ++i) lp.A[i][j] *= f;
+         lp.c[j] *= f;
+         if(lp.lo[j] > -INF) lp.lo[j] /= f;
+         if(lp.up[j] < INF) lp.up[j] /= f;
+         x0[j] /= f;
+      }
+   }
    return P;
 }
 
@@ -243,10 +268,12 @@ struct PlantedGrid
    std::vector<std::pair<int, int>> sizes;
    std::vector<int> densities;
    int seeds = 1;
-   uint64_t size() const { return (uint64_t)sizes.size() * densities.size() * 2 * 2 * 3 * seeds; }
+   int magnitudes = 1;      // 2: every member also in its power-of-two rescaled form
+   uint64_t size() const { return (uint64_t)sizes.size() * densities.size() * 2 * 2 * 3 * seeds * magnitudes; }
    PlantedSpec at(uint64_t idx) const
    {
       PlantedSpec p;
+      p.magnitude = idx % magnitudes; idx /= magnitudes;
       p.kind = idx % 3; idx /= 3;
       p.maximize = idx % 2; idx /= 2;
       p.degenerate = idx % 2; idx /= 2;
